@@ -74,6 +74,27 @@ PROPS = {
         'kani': {'quick': [('key_layout', KEY_LAYOUT_ALL)]},
         'not_decided': [],
     },
+    'C10': {
+        'verus': {'tree_delete': ['Writer::delete_items_in_file', 'lemma_del_fit', 'lemma_del_one_side_empty', 'lemma_del_keep', 'lemma_del_common'],
+                  'tree_insert': TREE_INSERT, 'leafs_new': ['ImmutableLeafs::new'],
+                  'writer_scans': ['Writer::item_indices', 'Writer::reset_and_retrieve_updated_items', 'Writer::clear_db_and_create_a_single_leaf', 'clear_tree_nodes', 'NodeId::unwrap_item']},
+        'assumed_fns': FROZEN_ASSUMED + [('src/writer.rs', "impl BuildOption<'_>", 'cancelled')],
+        'trusted': ['every heed / TmpNodes stand-in call and every poll of cancelled() may return an arbitrary Ok/Err: all fault sequences at all poll points are covered symbolically',
+                    'A1: used_tree_node swallows an error raised inside its try_fold (unwrap_or_default); harmless under the monotone callbacks the property quantifies over (DESIGN.md C10); that function is not under contract'],
+        'not_decided': ['abort restores the previous contents and a retry succeeds (LMDB, trusted)', 'temporary files and file descriptors are released (OS resources)',
+                        'build() itself and its loop drivers (delete_items_from_trees, insert_items_in_current_trees, insert_items_in_tree, incremental_index_large_descendants, make_tree_in_file, delete_extra_trees, delete_tree) are not under contract yet: "never Ok over a half-built forest" is decided only per function listed above'],
+    },
+    'C20': {
+        'verus': {'tree_delete': ['Writer::delete_items_in_file', 'lemma_del_fit', 'lemma_del_one_side_empty', 'lemma_del_keep', 'lemma_del_common'],
+                  'tree_insert': TREE_INSERT, 'leafs_new': ['ImmutableLeafs::new'],
+                  'reader_search': ['Reader::nns_by_leaf'], 'store': ['Writer::add_item', 'Writer::item_vector', 'ItemIter::next']},
+        'assumed_fns': FROZEN_ASSUMED + [('src/distance/mod.rs', None, 'two_means'), ('src/distance/mod.rs', None, 'two_means_binary_quantized'),
+                                         ('src/writer.rs', None, 'split_imbalance')],
+        'trusted': ['every float-dependent decision (side, create_split, split_imbalance, margins, distances) is uninterpreted in these units, so the structural contracts hold for duplicates, zero vectors, collinear data, huge / subnormal values, NaN and infinities alike',
+                    'OrderedFloat is a total order (uninterpreted order embedding)'],
+        'not_decided': ['bounded time (termination): not decided; two_means / create_split / normalize (closure and iterator float code) are not under contract, only drift-guarded',
+                        'make_tree_in_file (three attempts + random fallback) is not under contract yet'],
+    },
     'C12': {
         'kani': {'quick': [('bq_codec', BQ_QUICK), ('bq_distance', ['bq_euclidean_is_4h_8_bytes', 'bq_dot_product_is_n_minus_2h_8_bytes']), ('bq_manhattan', ['bq_manhattan_is_2h_8_bytes'])],
                  'thorough': [('bq_codec', BQ_MORE), ('bq_distance', ['bq_euclidean_is_4h_16_bytes'])]},
